@@ -473,6 +473,14 @@ impl Ctx {
         if skip_part(P::NAME) {
             return;
         }
+        // fallback mode of ./check: the in-process run died of a signal (an abort or a stack
+        // overflow inside the engine cannot be caught in-process), so the generated search is
+        // repeated in isolated worker processes, which attribute a death to the case that ran
+        if std::env::var_os("MJV_ISOLATE").is_some() {
+            let _ = max_shrink_iters;
+            self.run_part_isolated::<P>("MJV_DEV", "isolated", cases, 180);
+            return;
+        }
         let shards = self.threads.max(1).min(cases.max(1) as usize);
         let per = cases.div_ceil(shards as u32);
         let open = self.open_signatures();
